@@ -7,13 +7,14 @@ LEVEL = 'proof'
 def build(ctx):
     common.encoder_tasks(ctx, lambda m: m.startswith('c.'), reverse=True)
     ctx.task('contracts.emit:task_emit_pass', 'resolve_instructions')
+    ctx.task('contracts.parse:task_parse')        # the text front end hands the encoder the operands the line names
     # the operands the source named reach the encoder: immediates are their expression's value, register aliases their constant's
     common.pass_tasks(ctx, ['resolve_immediates', 'resolve_register_aliases'])
     ctx.trust(common.TRUST_BOUNDED)
 
 
 def bounded(ctx):
-    ctx.task('bounded.tasks:encoder_text_task', 'c', ['accept', 'decode', 'size'], ['x', 'abi'])
+    ctx.task('bounded.tasks:encoder_text_task', 'c', ['accept', 'decode', 'size'], ['x', 'abi', 'const'])
     ctx.task('bounded.tasks:halfword_task')
 
 
